@@ -263,11 +263,11 @@ func (cl *Cluster) Concrete(c string, i int, r AbsReq) []byte {
 }
 
 // Dial connects a new client to the proxy, optionally from a given source IP.
-func DialClient(name, proxyAddr, src string, smallBuf bool) (*Client, error) {
+func DialClient(name, proxyAddr, src string, bufSize int) (*Client, error) {
 	d := net.Dialer{}
-	if smallBuf {
+	if bufSize > 0 {
 		d.Control = func(network, address string, c syscall.RawConn) error {
-			return c.Control(func(fd uintptr) { _ = unix.SetsockoptInt(int(fd), unix.SOL_SOCKET, unix.SO_RCVBUF, 8192) })
+			return c.Control(func(fd uintptr) { _ = unix.SetsockoptInt(int(fd), unix.SOL_SOCKET, unix.SO_RCVBUF, bufSize) })
 		}
 	}
 	if src != "" {
